@@ -147,8 +147,56 @@ def cmd_run(ids, allprops=False):
                 print('      ', l[:220])
 
 
+def cmd_port(sid):
+    """The stored patch no longer applies to /repo HEAD (a genuine defect was
+    fixed nearby): re-apply it with reduced context / fuzz in a scratch
+    worktree, regenerate patch.diff and verify again with the unchanged demo."""
+    d = os.path.join(SEEDED, sid)
+    patch = os.path.join(d, 'patch.diff')
+    wt = tempfile.mkdtemp(prefix='seedport_')
+    os.rmdir(wt)
+    rc, out = sh(['git', '-C', '/repo', 'worktree', 'add', '-q', '--detach', wt, 'HEAD'])
+    assert rc == 0, out
+    try:
+        ok = False
+        for cmd in (['git', '-C', wt, 'apply', patch], ['git', '-C', wt, 'apply', '-C1', patch],
+                    'cd %s && patch -p1 --fuzz=3 --no-backup-if-mismatch < %s' % (wt, patch)):
+            rc, out = sh(cmd)
+            if rc == 0:
+                ok = True
+                how = cmd if isinstance(cmd, str) else ' '.join(cmd[3:])
+                break
+            sh(['git', '-C', wt, 'checkout', '--', '.'])
+        if not ok:
+            print('cannot port %s automatically:\n%s' % (sid, out[-600:]))
+            return 1
+        rc, newdiff = sh(['git', '-C', wt, 'diff'])
+        tmp = tempfile.mkdtemp(prefix='seedport_out_')
+        open(os.path.join(tmp, 'patch.diff'), 'w').write(newdiff)
+        shutil.copy(os.path.join(d, 'demo.py'), os.path.join(tmp, 'demo.py'))
+        if os.path.exists(os.path.join(d, 'notes.md')):
+            shutil.copy(os.path.join(d, 'notes.md'), os.path.join(tmp, 'notes.md'))
+    finally:
+        sh(['git', '-C', '/repo', 'worktree', 'remove', '--force', wt])
+        shutil.rmtree(wt, ignore_errors=True)
+    meta = json.load(open(os.path.join(d, 'meta.json')))
+    rc = cmd_import(tmp, sid, meta['property'])
+    if rc == 0:
+        m2 = json.load(open(os.path.join(d, 'meta.json')))
+        m2['ported'] = ('the sub-agent wrote this change before a genuine defect was repaired in the same file; the '
+                        'identical edit was re-applied to the repaired code (%s) and verified again with the unchanged demo.py' % how)
+        for k in ('also', 'needs_to_manifest', 'summary'):
+            if k in meta:
+                m2[k] = meta[k]
+        json.dump(m2, open(os.path.join(d, 'meta.json'), 'w'), indent=1)
+    shutil.rmtree(tmp, ignore_errors=True)
+    return rc
+
+
 if __name__ == '__main__':
     a = sys.argv[1:]
+    if a and a[0] == 'port':
+        sys.exit(cmd_port(a[1]))
     if a and a[0] == 'import':
         sys.exit(cmd_import(a[1], a[2], a[3]))
     elif a and a[0] == 'run':
